@@ -29,13 +29,14 @@ type Scenario struct {
 	Shared      bool     `json:"shared,omitempty"` // one session used by two actors
 	MinOplog    int      `json:"minOplog,omitempty"`
 	MaxOplog    int      `json:"maxOplog,omitempty"`
-	Preload     int      `json:"preload,omitempty"` // writes before the scenario (old events, see watch)
-	EmptyStart  bool     `json:"empty,omitempty"`   // do not seed the counter document (oplog starts empty)
-	Watch       bool     `json:"watch,omitempty"`   // record oplog snapshots for the C09 monitors
-	Queue       int      `json:"queue,omitempty"`   // preload db.q with this many ready jobs (read-modify-write scenarios)
-	FileStore   bool     `json:"file,omitempty"`    // a real lungo.FileStore (temp file) under the fault wrapper
-	Free        bool     `json:"free,omitempty"`    // free-running stress
-	FreeFor     int      `json:"freeMs,omitempty"`  //
+	Preload     int      `json:"preload,omitempty"`  // writes before the scenario (old events, see watch)
+	EmptyStart  bool     `json:"empty,omitempty"`    // do not seed the counter document (oplog starts empty)
+	Watch       bool     `json:"watch,omitempty"`    // record oplog snapshots for the C09 monitors
+	Queue       int      `json:"queue,omitempty"`    // preload db.q with this many ready jobs (read-modify-write scenarios)
+	ExpireMS    int      `json:"expireMs,omitempty"` // ExpireInterval in ms (0: one hour); such runs are monitors-only
+	FileStore   bool     `json:"file,omitempty"`     // a real lungo.FileStore (temp file) under the fault wrapper
+	Free        bool     `json:"free,omitempty"`     // free-running stress
+	FreeFor     int      `json:"freeMs,omitempty"`   //
 }
 
 // Viol is a monitor failure (converted to run.Violation by the streams).
@@ -61,6 +62,7 @@ type Outcome struct {
 	Oplog      []*Ev    // final oplog (before the teardown probe)
 	Final      []string // final contents of db.c (sorted by _id)
 	FinalQ     []string // final contents of db.q
+	FinalN     []string // final contents of db.n (nil: the scenario does not use it)
 	ClosedBy   bool     // the scenario itself closed the engine
 	TornDown   bool     // the controller ended client-held transactions to let token waiters finish (stands for the token timeout)
 	ProbeCls   string   // result class of the teardown probe write ("" = not run)
@@ -84,10 +86,16 @@ func Run(sc Scenario, ch Chooser) *Outcome {
 		out.viol("C16", "no-hooks", "harness built without -tags verif", "")
 		return out
 	}
+	badDDLBegins("") // learn (once, before the hooks are installed) which invalid-name calls reach Begin
 	base := runtime.NumGoroutine()
 	markLungoBase()
 	wo := WorldOptions{Sessions: sc.Sessions, NoSeed: sc.EmptyStart}
 	wo.Opts.MinOplogSize, wo.Opts.MaxOplogSize = sc.MinOplog, sc.MaxOplog
+	if sc.ExpireMS > 0 {
+		// a short expiry interval: the expiry goroutine (not driven by the controller) is mid-iteration
+		// with high probability when Close comes
+		wo.Opts.ExpireInterval = time.Duration(sc.ExpireMS) * time.Millisecond
+	}
 	if sc.MaxOplog > 0 {
 		// size-driven retention: make the age clause as permissive as the engine allows
 		wo.Opts.MinOplogAge = time.Nanosecond
@@ -143,6 +151,9 @@ func Run(sc Scenario, ch Chooser) *Outcome {
 		if sc.Shared {
 			wit = "shared-session-deadlock"
 		}
+		if closeCalls(sc) > 1 {
+			wit = "close-not-prompt:double-close"
+		}
 		var where []string
 		for _, r := range c.trace {
 			if r.Kind == "deadlock" || r.Kind == "stall" {
@@ -168,6 +179,7 @@ func Run(sc Scenario, ch Chooser) *Outcome {
 	out.Viols = append(out.Viols, CheckHistory(out)...)
 	out.Viols = append(out.Viols, CheckPersistence(out)...)
 	out.Viols = append(out.Viols, CheckRMW(out)...)
+	out.Viols = append(out.Viols, CheckCatalog(out)...)
 	out.WallMS = float64(time.Since(t0).Microseconds()) / 1000
 	return out
 }
@@ -212,6 +224,26 @@ func traceMonitors(out *Outcome) {
 					holder = 0
 				}
 			}
+		}
+	}
+	// a Close call never waits for the expiry goroutine at a quiescent point: with every actor parked
+	// or blocked, nothing can keep that goroutine from seeing the dying tomb
+	nClose := 0
+	for _, acts := range out.Sc.Actors {
+		for _, op := range acts {
+			if op.Kind == "close" {
+				nClose++
+			}
+		}
+	}
+	for _, r := range out.Trace {
+		if (r.Kind == "blocked" || r.Kind == "deadlock" || r.Kind == "stall") && r.Site == "tomb.wait" {
+			wit := "close-not-prompt"
+			if nClose > 1 {
+				wit = "close-not-prompt:double-close"
+			}
+			out.viol("C16", wit, "Engine.Close is stuck waiting for the expiry goroutine", fmt.Sprintf("actor %d trace #%d", r.Actor, r.Seq))
+			break
 		}
 	}
 	// after Engine.Close has returned, no writer may still be queued for the write token — whatever
@@ -265,6 +297,8 @@ func monitorsC16(out *Outcome, c *Controller, w *World, base int) {
 		case strings.Contains(h.Res.Panic, "semaphore full"):
 			out.viol("C16", "release-panic", "Semaphore.Release panicked", fmt.Sprintf("actor %d op %s", h.Actor, h.Kind))
 		case strings.Contains(h.Res.Panic, "injected callback panic"):
+		case h.Kind == "badddl" && strings.HasPrefix(h.Res.Panic, "lungo: "):
+			// a documented argument check of the driver (e.g. DropOne("")): raised before any lock is taken
 		case strings.Contains(h.Res.Panic, "injected store panic") && injectedStorePanic[h.Actor] > 0:
 		default:
 			out.viol("C16", "panic:"+h.Kind, "a call panicked", h.Res.Panic)
@@ -370,6 +404,9 @@ func monitorsC16(out *Outcome, c *Controller, w *World, base int) {
 	// final oplog and contents
 	out.Oplog, out.Final = ReadOplog(w.Engine), Contents(w.Engine, lungo.Handle{DB, Coll})
 	out.FinalQ = Contents(w.Engine, lungo.Handle{DB, QueueColl})
+	if w.Engine.Catalog().Namespaces[lungo.Handle{DB, NColl}] != nil || usesN(sc) {
+		out.FinalN = Contents(w.Engine, lungo.Handle{DB, NColl})
+	}
 	// (4) probe write
 	if o.Alive {
 		ctx, cancel := context.WithTimeout(context.Background(), time.Second)
@@ -408,7 +445,7 @@ func monitorsC16(out *Outcome, c *Controller, w *World, base int) {
 	}
 	// (5) Close is prompt, every call then reports ErrEngineClosed, goroutines return to the baseline
 	if !promptly(func() { defer func() { _ = recover() }(); w.Engine.Close() }) {
-		out.viol("C16", "close-not-prompt", "Engine.Close did not return within 200 ms", "")
+		out.viol("C16", closeWit(sc), "Engine.Close did not return within 200 ms", "")
 	}
 	probes := map[string]func(ctx context.Context) error{
 		"insert": func(ctx context.Context) error {
@@ -442,9 +479,9 @@ func monitorsC16(out *Outcome, c *Controller, w *World, base int) {
 			res <- Classify(f(ctx))
 		})
 		if !ok {
-			out.viol("C16", "close-not-prompt", "call after Close did not return within 200 ms", name)
+			out.viol("C16", closeWit(sc), "call after Close did not return within 200 ms", name)
 		} else if cls := <-res; cls != "closed" {
-			out.viol("C16", "close-not-prompt", "call after Close did not report ErrEngineClosed", name+": "+cls)
+			out.viol("C16", closeWit(sc), "call after Close did not report ErrEngineClosed", name+": "+cls)
 		}
 	}
 	// the process-wide count returns to the baseline; when other shards of the harness are busy the
@@ -583,4 +620,35 @@ func promptly(f func()) bool {
 		time.Sleep(50 * time.Millisecond)
 	}
 	return false
+}
+
+func usesN(sc Scenario) bool {
+	for _, s := range sc.Actors {
+		for _, op := range s {
+			switch op.Kind {
+			case "ccoll", "insn", "insu", "findn", "updall", "crix", "dropn":
+				return true
+			}
+		}
+	}
+	return false
+}
+
+func closeCalls(sc Scenario) int {
+	n := 0
+	for _, acts := range sc.Actors {
+		for _, op := range acts {
+			if op.Kind == "close" {
+				n++
+			}
+		}
+	}
+	return n
+}
+
+func closeWit(sc Scenario) string {
+	if closeCalls(sc) > 1 {
+		return "close-not-prompt:double-close"
+	}
+	return "close-not-prompt"
 }
